@@ -139,7 +139,7 @@ def reinit (cfg : Cfg) (file : File) : Option Tree :=
     let pointed := (nonTail.map (fun p => (f p).word0)).filter reinitHasNext
     if pointed.any (fun p => p.toNat > maxPageId) then none else
     let heads := nonTail.filter (fun p => !pointed.contains (w p))
-    let head := match heads with | [] => 0 | h :: _ => h
+    let head := heads.headD 0
     some { root := root,
            a := { nextPage := nextPage, free := chase f (maxPageId + 1) head,
                   leafKeys := countLeafKeys root, pagesFree := nonTail.length,
